@@ -192,3 +192,48 @@ def token_deletions(texts, per_text=0, rng=None):
         for a, b in spans:
             out.append(t[:a] + t[b:])
     return list(dict.fromkeys(out))
+
+
+def relayout_multiline(texts, limit=None):
+    """valid re-layouts of seeds: inside brackets a line break (+ indentation, sometimes a comment or blank line) after every
+    comma and opening bracket.  Gives multi-line expressions, calls, dict/list displays and parameter lists."""
+    from symx.oracles import safe_tokens
+    X = repo().real
+    T = X.tokenize.Token
+    out = []
+    for n, t in enumerate(texts):
+        toks = safe_tokens(X, t)
+        if toks is None:
+            continue
+        lines = t.splitlines(keepends=True)
+        starts = [0]
+        for ln in lines:
+            starts.append(starts[-1] + len(ln))
+        depth = 0
+        cuts = []
+        ok = True
+        for k in toks:
+            if k.start[0] != k.end[0] and k.type not in (T.NEWLINE, T.NL):
+                ok = False      # keep it simple: no multi-line tokens in the source seed
+                break
+            if k.type == T.OP:
+                if k.string and k.string[-1] in "([{":
+                    depth += 1
+                    cuts.append((starts[k.end[0] - 1] + k.end[1], depth))
+                elif k.string in ")]}":
+                    depth -= 1
+                elif k.string == "," and depth > 0:
+                    cuts.append((starts[k.end[0] - 1] + k.end[1], depth))
+            if k.type in (T.FSTRING_START,):
+                ok = False
+                break
+        if not ok or not cuts:
+            continue
+        s = t
+        for j, (off, d) in enumerate(sorted(cuts, reverse=True)):
+            extra = ["", "  # c", "\n"][(n + j) % 3] if (n + j) % 4 == 0 else ""
+            s = s[:off] + extra + "\n" + "  " * d + s[off:].lstrip(" ")
+        out.append(s)
+        if limit and len(out) >= limit:
+            break
+    return list(dict.fromkeys(out))
